@@ -101,6 +101,52 @@ Section KMV.
          | None => KCount 0
          end.
 
+  (* ---- the same specification computed in O(n log n): bottom-up merge sort, then removal of
+     adjacent duplicates. Proved equal to `usort` / `kmv_spec` in Proofs/KMVProofs.v
+     (usort_fast_eq, kmv_fast_eq); the correspondence check uses it for sketch sizes in the
+     thousands, where running try_insert d times (O(d*k)) is too slow under vm_compute. ---- *)
+  Fixpoint kmerge (a : list R) : list R -> list R :=
+    match a with
+    | [] => fun b => b
+    | x :: a' =>
+        fix inner (b : list R) : list R :=
+          match b with
+          | [] => a
+          | y :: b' => if ltb y x then y :: inner b' else x :: kmerge a' b
+          end
+    end.
+  Fixpoint kpairs (l : list (list R)) : list (list R) :=
+    match l with
+    | a :: b :: r => kmerge a b :: kpairs r
+    | _ => l
+    end.
+  (* `fuel` rounds of pairwise merging; whatever is left is merged one by one (so the result is
+     correct for every fuel; with fuel >= log2 (length l) nothing is left) *)
+  Fixpoint kmsort_fuel (fuel : nat) (l : list (list R)) : list R :=
+    match fuel with
+    | O => fold_right kmerge [] l
+    | S f => match l with
+             | [] => []
+             | [a] => a
+             | _ => kmsort_fuel f (kpairs l)
+             end
+    end.
+  Definition kmsort (l : list R) : list R := kmsort_fuel 64 (map (fun x => [x]) l).
+  (* drop adjacent equal elements of an ascending list *)
+  Fixpoint kdedup (l : list R) : list R :=
+    match l with
+    | a :: ((b :: _) as r) => if eqb a b then kdedup r else a :: kdedup r
+    | _ => l
+    end.
+  Definition usort_fast (l : list R) : list R := kdedup (kmsort l).
+  Definition kmv_fast (k : nat) (l : list R) : kmv_out R :=
+    let u := usort_fast l in
+    if length u <? k then KCount (length u)
+    else match nth_error u (k - 1) with
+         | Some rk => KEstimate k rk
+         | None => KCount 0
+         end.
+
   (* KMVApproxDistinctCount<T> as a combiner over ranks (CombineFn + LiftableCombiner) *)
   Definition kmv_combiner (k : nat) : combiner R (kmv R) (kmv_out R) :=
     {| c_create := kmv_new k; c_add := try_insert; c_merge := merge_from;
